@@ -79,6 +79,15 @@ def make_layouts(rng, n_eng, n_lines, same=False):
             pos = sorted(rng.sample(range(T), min(T, len(text))))
             for p, ch in zip(pos, text):
                 L[p, chars.index(ch)] += peak
+            if text and len(pos) == len(text) and rng.random() < 0.25:
+                # a saturated character: a run of 2..4 frames in which it has all the mass (log-probability exactly 0 after the floor),
+                # next to a frame with some mass for another character
+                j = rng.randrange(len(text))
+                p0 = pos[j]
+                p1 = min(T - 1, p0 + rng.randrange(1, 4)) if j + 1 >= len(pos) else min(pos[j + 1] - 1, p0 + rng.randrange(1, 4))
+                if p1 > p0:
+                    L[p0:p1 + 1, :] = 0.0
+                    L[p0:p1 + 1, chars.index(text[j])] = 20.0
             if len(text) >= 3 and len(pos) == len(text) and rng.random() < 0.35:
                 # the reader hesitates at the first (last) character between it and the LAST (first) character of the line
                 a, b = (0, -1) if rng.random() < 0.5 else (-1, 0)
@@ -121,7 +130,7 @@ def ref_confidences(line):
     """The mean character confidence as the property defines it, computed independently of get_line_confidence: probability of the
     aligned label minus the best competing probability in the character's window (the label itself and its two neighbours in the
     text excused, blank excluded), clipped at 0; 0.5 per character when the line cannot be aligned."""
-    from pero_ocr.core.force_alignment import align_text
+    from pero_ocr.core.force_alignment import force_align
     text = line.transcription
     if not text:
         return np.asarray([])
@@ -135,9 +144,17 @@ def ref_confidences(line):
     if T == len(labels):
         return np.array([probs[i, l] for i, l in enumerate(labels)])
     try:
-        al = [int(a) for a in align_text(-lp, np.asarray(labels), C - 1)]
+        # the minimum-cost alignment (C05), then for every character the FIRST of its frames in which the network is most confident
+        seq = [int(x) for x in force_align(-lp, list(labels), C - 1, return_seq_positions=True)]
     except ValueError:
         return np.ones(len(labels)) * 0.5
+    best = lp.max(axis=1)
+    al = []
+    for i in range(len(labels)):
+        fr = [t for t in range(T) if seq[t] == i]
+        if not fr:
+            return np.ones(len(labels)) * 0.5
+        al.append(max(fr, key=lambda t: (best[t], -t)))
     ends = al + [max(1000, T)]
     out, last = [], 0
     for i, l in enumerate(labels):
